@@ -88,6 +88,21 @@ CHECKS['C14'] = dict(
     note='Trusted: clang-14 -O1 IR; heap/object model of irsym (fresh 32-byte aligned blocks, thread-local cache initially empty); the '
          'window of unsupported arguments is the one stated in the property.',
     design='§3 C14')
+CHECKS['C08'] = dict(
+    text='Bounded operation histories over a pool of SU_vector objects are executed symbolically, one public operation per step, from '
+         'every pre-state of two operands in {empty, self-owned, externally backed} x two dimensions plus a self-owned observer: all '
+         '1-step operations (copy/move construction and assignment, = and += from every element-wise proxy with lvalue/rvalue operands, '
+         'proxy construction, SetBackingStore, destruction, self-assignment), the consume-then-re-use family (2 steps) and a third '
+         'observing operation (3 steps). After every step each live vector is compared (dimension, component terms, storage binding) '
+         'with a reference model of value semantics, the ownership invariant (no block owned twice, owned storage is a live new[] block, '
+         'user buffers unchanged and never owned) is checked on the raw objects, every memory access is checked by the object table, '
+         'and at the end each vector is copied and compared through the public interface and everything is destroyed and the cache '
+         'drained (double/invalid frees). Failing histories are replayed on an ASan/UBSan build against a concrete run of the model.',
+    note='Trusted: clang-14 -O1 IR; irsym heap model (quick: 32-byte aligned blocks; thorough: both residues mod 32 forked); the reference '
+         'model vmodel.py encodes the documentation (moved-from vectors: only safety; consumed externally backed vectors: unspecified); '
+         'histories longer than 3 operations and pools larger than 4 live vectors are outside the bound; quick tier samples the multi-step '
+         'families with VERIF_SEED.',
+    design='§3 C08')
 NA_REASON = 'check not built yet (framework under construction; see DESIGN.md)'
 NA = {}
 
